@@ -119,6 +119,32 @@ func genLedgerQuery(repo string) (string, error) {
 	if loop == nil || exprString(fset, loop) != "cacheSize > HEADER_INDEX_MAX_SIZE" {
 		return "", fmt.Errorf("setHeaderIndex: loop condition `cacheSize > HEADER_INDEX_MAX_SIZE` not found")
 	}
+	// the index write itself: exactly one assignment `this.headerIndex[curHeaderHeight] = blockHash`, as a TOP-LEVEL statement of the body
+	// (an entry left by header sync must be overwritten when the block of that height is committed)
+	top, nested := 0, 0
+	isIdxAssign := func(n ast.Node) bool {
+		as, ok := n.(*ast.AssignStmt)
+		if !ok || len(as.Lhs) != 1 || len(as.Rhs) != 1 {
+			return false
+		}
+		ix, ok := as.Lhs[0].(*ast.IndexExpr)
+		return ok && exprString(fset, ix.X) == "this.headerIndex" && exprString(fset, ix.Index) == "curHeaderHeight" && exprString(fset, as.Rhs[0]) == "blockHash"
+	}
+	for _, st := range fn.Body.List {
+		if isIdxAssign(st) {
+			top++
+		}
+	}
+	ast.Inspect(fn.Body, func(n ast.Node) bool {
+		if n != nil && isIdxAssign(n) {
+			nested++
+		}
+		return true
+	})
+	if nested == 0 {
+		return "", fmt.Errorf("setHeaderIndex: assignment `this.headerIndex[curHeaderHeight] = blockHash` not found")
+	}
+	fmt.Fprintf(&sb, "/-- setHeaderIndex: `this.headerIndex[curHeaderHeight] = blockHash` occurs %d time(s), %d of them as an unguarded top-level statement of\nthe body — true iff the index entry is written unconditionally (overwriting an entry left by header sync) -/\ndef setHeaderIndexOverwrites : Bool := %v\n\n", nested, top, top == 1 && nested == 1 && isIdxAssign(fn.Body.List[0]))
 	sb.WriteString("/-- setHeaderIndex: eviction is considered only when `this.getFirstIndex() < curBlockHeight` -/\ndef evictGuard (curBlockHeight firstIndex : Nat) : Bool := decide (firstIndex < curBlockHeight)\n\n")
 	sb.WriteString("/-- setHeaderIndex: the loop runs while `cacheSize > HEADER_INDEX_MAX_SIZE` -/\ndef evictWhile (cacheSize : Nat) : Bool := decide (cacheSize > headerIndexMaxSize)\n\n")
 	// loadHeaderIndexList
